@@ -1079,6 +1079,11 @@ class Symex:
             if name == "__floor__":
                 import math
                 return math.floor(recv)
+            if name in self.hooks and callable(self.hooks[name]):
+                # a modelled method (e.g. sympy's ``expand``) on a value the scenario represents by a number
+                r = self.hooks[name](self, [recv] + list(args), kw)
+                if r is not NotImplemented:
+                    return r
         v = self.getattr(recv, name, node)
         return self.call_value(v, args, kw, node)
 
@@ -1306,6 +1311,11 @@ class Symex:
             for x in (self.iterate(args[0], node) if args else []):
                 c[x] = c.get(x, 0) + 1
             return c
+        if name == "dict.fromkeys" and 1 <= len(args) <= 2 and not kw and not isinstance(args[0], (T, Obj)):
+            try:
+                return {k: (args[1] if len(args) > 1 else None) for k in self.iterate(args[0], node)}
+            except TypeError:
+                self.unsupported(node, "dict.fromkeys with unhashable keys")
         if name == "defaultdict" and not args[1:]:
             return _DefaultDict(args[0] if args else None, self, node)
         if name in _BUILTINS:
